@@ -308,9 +308,14 @@ func (x *Exec) resolveType(env *Env, c *Clause, s string) types.Type {
 	return nil
 }
 
+var extraSorts = map[string]bool{}
+
 func isSMTSort(s string) bool {
 	switch s {
 	case SInt, SBool, SReal, SStr, SIface, SSlice:
+		return true
+	}
+	if extraSorts[s] {
 		return true
 	}
 	return strings.HasPrefix(s, "(Array ")
@@ -701,6 +706,11 @@ func (x *Exec) evalCall(env *Env, c *Clause, e *Expr) (SymVal, types.Type) {
 			x.specFail(c, "row of non-slice")
 		}
 		return Select(x.heap(env.st, x.elemHeapKey(u.Elem())), SlBase(tv)), nil
+	case "subsl":
+		need(4)
+		return app(SSlice, "subsl", argT(0), argT(1), argT(2), argT(3)), nil
+	case "nilslice":
+		return NilSl, nil
 	case "sidx":
 		need(2)
 		return SlIdx(argT(0), argT(1)), intT
